@@ -893,3 +893,7 @@ mutant('RG-one-of-four-breaks-inverted', ['C11'], ['C11.RG|guard|hpack::decoder:
                     if f(entry).is_break() {''', '''                    let entry = self.decode_indexed(src)?;
                     consume(src);
                     if !f(entry).is_break() {''')])
+
+mutant('C09-R14-preface-polarity', ['C09'], ['C09.R14|preface|mismatch-is-error'],
+       'the server takes a matching client preface for a protocol error and reads on after a mismatch',
+       [('src/server.rs', 'if &PREFACE[self.pos..self.pos + n] != buf.filled() {', 'if &PREFACE[self.pos..self.pos + n] == buf.filled() {')])
